@@ -4,6 +4,7 @@ A case is a file (format + per-record raw field texts + header/eol/extra-column 
 chunked with a minimum chunk size) and a register program over two registers, both initialised by reading the file.
 observe() runs the same program on tables read with lazy=True and with lazy=False and records every step of both.
 """
+import json
 import os
 import random
 import shutil
@@ -18,11 +19,14 @@ RULE = ('files of BED3/BED6/FASTQ/two-line FASTA/VCF/SAM built from per-record f
         'non-trivial = the program has an index, concatenate or write after a field access or a replace')
 EXHAUSTIVE = {'quick': False, 'thorough': False}
 TIE = 'correspondence (lazy three-store state machine evaluated in Coq on the same program; eager side compared with the row-list Spec)'
-ASSUMPTIONS = ['written bytes are compared lazy-vs-eager only when every record of the file is canonically spelled (C04 owns pass-through of non-canonical text)',
-               'BAM is not generated (no BAM encoder in this check); float columns are not generated',
-               'replacement arrays have the table length and the field type (wrong-length arrays are outside the quantifier)']
-PARTIAL = ['C05_refines_partial: concatenate guarded by "every operand has the same set/computed key sets" (current code takes the keys of the first operand only)',
-           'C05_refines_partial: t[i] guarded to formats without ragged str columns (npstructures RaggedView2 row access raises under numpy 2)']
+ASSUMPTIONS = ['written bytes are compared lazy-vs-eager only when every record of the file is canonically spelled (C04 owns pass-through of non-canonical text); Coq decides canonicity (rec_canon)',
+               'BAM is not generated (no BAM encoder in this check); float columns and Optional[int] columns mixing "." with numbers are not generated (C02/C18 own them)',
+               'replacement arrays have the table length and the type the eager table itself holds for that field (StringArray, EncodedRaggedArray, int ndarray, RaggedArray of qualities, flat strand array)',
+               'a flat-alphabet column (strand) is observed as text: lazily it is an N x 1 ragged array, eagerly a flat array (see notes/C05.md)',
+               't[i] on formats with a ragged str column: the model states the row the code intends; a TypeError from npstructures RaggedView2 under NumPy 2 is tolerated by model_ok and reported through spec_ok when only one mode fails']
+PARTIAL = ['C05_refines_partial / C05_file_level_partial: concatenate guarded by "every operand has the replaced-key set of the first and the cached keys of the first" (the code takes the keys of the first operand only); refuted without the guard by C05_concat_drops_refuted, C05_concat_keyerror_refuted; unguarded for the repaired concatenate in C05_refines_fixed',
+           'all refinement theorems: guarded against concatenating a lazy table with a materialised one (C05_concat_mixed_refuted), writing a replaced column the writer cannot format (C05_write_replaced_refuted), parsing a SequenceID column of an empty buffer (C05_empty_sid_refuted)',
+           'written bytes are proved equal under canonical spelling only (C05_noncanonical_write_differs shows the statement is false otherwise)']
 PER_FILE = 40
 
 # ----------------------------------------------------------------------------- formats
@@ -127,6 +131,9 @@ def _new_values(kind, vals):
     if kind == 'strand':
         from bionumpy.encodings import StrandEncoding
         return bnp.as_encoded_array(''.join(vals), StrandEncoding)
+    if kind == 'sid':
+        from bionumpy.string_array import as_string_array
+        return as_string_array(list(vals)) if vals else as_string_array(np.array([], dtype='S1'))
     return bnp.as_encoded_array(list(vals))
 
 
@@ -200,3 +207,511 @@ def observe(case):
         return dict(lazy=_run_mode(case, path, d, True), eager=_run_mode(case, path, d, False))
     finally:
         shutil.rmtree(d, ignore_errors=True)
+
+
+# ----------------------------------------------------------------------------- generator
+INT_POOL = [0, 1, 7, 9, 10, 42, 99, 100, 999, 1000, 12345]
+SEQS = ['A', 'AC', 'ACGT', 'GGTTA', 'TTTTTTTT', 'N', 'acgt']
+QCH = '!#5I'
+
+
+def _gen_cell(rng, fmt, name, kind, noncanon):
+    if kind in ('int', 'int1'):
+        v = rng.choice(INT_POOL) + (1 if kind == 'int1' else 0)
+        s = str(v)
+        if noncanon and rng.random() < 0.4:
+            s = rng.choice(['0' + s, '00' + s, '+' + s])
+        return s
+    if kind == 'strand':
+        return rng.choice('+-.')
+    if kind == 'sid':
+        if fmt in ('fastq', 'fasta2'):
+            return rng.choice(['r1', 'read2 desc', 'x', 'seq_10/1'])
+        return rng.choice(['chr1', 'chr2', 'chrX', 'c', 'scaffold_12'])
+    if fmt == 'vcf':
+        return {'id': ['.', 'rs1', 'rs22'], 'ref_seq': ['A', 'AC', 'G'], 'alt_seq': ['T', 'A', 'CG'],
+                'quality': ['.', '30', '9'], 'filter': ['.', 'PASS'], 'info': ['.', 'DP=3', 'DP=4;AF=0.5']}[name][rng.randrange(2 + (name != 'filter'))]
+    if fmt == 'sam':
+        return {'cigar': ['4M', '2M1I1M', '*'], 'next_chromosome': ['*', '='], 'sequence': ['ACGT', 'AC', 'A'],
+                'quality': ['IIII', '*', '#5'], 'extra': ['NM:i:0', 'NM:i:1\tXX:Z:a', '']}[name][rng.randrange(2 + (name in ('cigar', 'sequence', 'quality', 'extra')))]
+    return rng.choice(SEQS)
+
+
+def _gen_file(rng, fmt, nrec, clean):
+    fields = FORMATS[fmt]['fields']
+    noncanon = (not clean) and rng.random() < 0.4
+    recs = []
+    for _ in range(nrec):
+        rec = [_gen_cell(rng, fmt, n, k, noncanon) for n, k in fields]
+        if fmt == 'fastq':
+            rec[2] = ''.join(rng.choice(QCH) for _ in rec[1])
+        if fmt == 'sam' and clean and rec[11] == '':
+            rec[11] = 'NM:i:0'
+        recs.append(rec)
+    case = dict(fmt=fmt, recs=recs, header='', extra_cols=[])
+    if not clean:
+        if rng.random() < 0.5:
+            case['header'] = {'bed3': '#track x\n', 'bed6': '#a\n#b\n', 'vcf': '##fileformat=VCFv4.2\n#CHROM\tPOS\tID\tREF\tALT\tQUAL\tFILTER\tINFO\n',
+                              'sam': '@HD\tVN:1.0\n@SQ\tSN:chr1\tLN:100000\n'}.get(fmt, '')
+        if fmt in ('bed3', 'bed6') and rng.random() < 0.25:
+            case['extra_cols'] = ['x', '9'][:rng.randint(1, 2)]
+    return case
+
+
+def _new_vals(rng, fmt, f, n):
+    name, kind = FORMATS[fmt]['fields'][f]
+    if kind in ('int', 'int1'):
+        return [rng.choice(INT_POOL) + 50 for _ in range(n)]
+    if kind == 'strand':
+        return [rng.choice('+-.') for _ in range(n)]
+    if kind == 'qual':
+        return [''.join(rng.choice(QCH) for _ in range(rng.randint(1, 4))) for _ in range(n)]
+    if kind == 'sid':
+        return [rng.choice(['n1', 'name_b', 'zz']) for _ in range(n)]
+    return [rng.choice(['T', 'GA', 'CCC', 'tag']) for _ in range(n)]
+
+
+class _Sym:
+    """Generator-side bookkeeping of one register: eager length, and the lazy object's kind and key sets."""
+    def __init__(self, n):
+        self.n, self.kind, self.setk, self.compk = n, 'lazy', set(), set()
+
+    def copy(self):
+        s = _Sym(self.n)
+        s.kind, s.setk, s.compk = self.kind, set(self.setk), set(self.compk)
+        return s
+
+
+def _cat_clean(fmt, syms):
+    kinds = {s.kind for s in syms}
+    if len(kinds) > 1:
+        return False
+    if syms[0].kind == 'eager' or fmt in ('fastq', 'fasta2'):
+        return True
+    return all(s.setk == syms[0].setk and syms[0].compk <= s.compk for s in syms)
+
+
+def _sym_apply(fmt, regs, op):
+    """Advance the bookkeeping assuming the step succeeds (the clean profile only emits such steps)."""
+    nf = len(FORMATS[fmt]['fields'])
+    k, r = op[0], op[1]
+    s = regs[r]
+    if k == 'get' and s.kind == 'lazy' and op[2] not in s.setk:
+        s.compk.add(op[2])
+    elif k == 'slice':
+        s.n = len(range(s.n)[slice(op[2], op[3], op[4])])
+    elif k == 'mask':
+        if len(op[2]) == s.n:
+            s.n = sum(op[2])
+    elif k == 'take':
+        if all(-s.n <= j < s.n for j in op[2]):
+            s.n = len(op[2])
+    elif k == 'rep':
+        if s.kind == 'lazy':
+            s.setk.add(op[2])
+            s.compk = set()
+    elif k == 'tolist' and s.kind == 'lazy':
+        s.compk |= set(range(nf)) - s.setk
+    elif k == 'cat':
+        src = [regs[j] for j in op[2]]
+        new = _Sym(sum(x.n for x in src))
+        if src[0].kind == 'eager' or fmt in ('fastq', 'fasta2'):
+            new.kind = 'eager'
+        else:
+            new.setk = set(src[0].setk)
+            new.compk = set(src[0].compk)
+        regs[r] = new
+
+
+def _gen_prog(rng, fmt, n0, length, clean, chunked):
+    fields = FORMATS[fmt]['fields']
+    nf = len(fields)
+    ragged = any(k == 'str' for _, k in fields)
+    regs = [_Sym(n0), _Sym(n0)]
+    if chunked and fmt in ('fastq', 'fasta2'):
+        regs[0].kind = regs[1].kind = 'eager'
+    prog = []
+    kinds = ['len', 'get', 'slice', 'mask', 'take', 'at', 'cat', 'rep', 'tolist', 'write']
+    weights = [1, 3, 2, 1.5, 1.5, 1, 2.5, 2.5, 1.5, 2.5]
+    tries = 0
+    while len(prog) < length and tries < 200:
+        tries += 1
+        k = rng.choices(kinds, weights)[0]
+        r = 0 if rng.random() < 0.7 else 1
+        n = regs[r].n
+        if k == 'len':
+            op = ['len', r]
+        elif k == 'get':
+            op = ['get', r, rng.randrange(nf)]
+        elif k == 'slice':
+            a = rng.choice([None, None, 0, 1, 2, -1, -2, n, n + 1])
+            b = rng.choice([None, None, 0, 1, 2, -1, n, n - 1, n + 2])
+            s = rng.choice([1, 1, -1, 2, -2, None])
+            op = ['slice', r, a, b, s]
+        elif k == 'mask':
+            m = [rng.random() < 0.6 for _ in range(n)]
+            if not clean and rng.random() < 0.05:
+                m = m + [True]
+            op = ['mask', r, m]
+        elif k == 'take':
+            if n == 0:
+                continue
+            hi = n if (clean or rng.random() < 0.93) else n + 1
+            op = ['take', r, [rng.randrange(-n, hi) for _ in range(rng.randint(0, n + 2))]]
+        elif k == 'at':
+            if clean and ragged:
+                continue
+            if n == 0 and clean:
+                continue
+            op = ['at', r, rng.randrange(-n, n) if n and rng.random() < 0.9 else n]
+        elif k == 'cat':
+            src = [r, 1 - r] if rng.random() < 0.55 else rng.choice([[r, r], [1 - r, r], [r, 1 - r, r], [r]])
+            if clean and not _cat_clean(fmt, [regs[j] for j in src]):
+                continue
+            if sum(regs[j].n for j in src) > 12:
+                continue
+            op = ['cat', r, src]
+            if not _cat_clean(fmt, [regs[j] for j in src]):
+                # the lazy run is expected to fail here while the eager one goes on: later steps would only
+                # compare two different tables, so the program ends with one observation of the register
+                prog.append(op)
+                prog.append(rng.choice([['len', r], ['tolist', r], ['write', r]]))
+                return prog
+        elif k == 'rep':
+            f = rng.randrange(nf)
+            if clean and ((fmt == 'fastq' and f == 2) or (fmt == 'vcf' and f == 7)):
+                continue
+            op = ['rep', r, f, _new_vals(rng, fmt, f, n)]
+        elif k == 'tolist':
+            op = ['tolist', r]
+        else:
+            op = ['write', r]
+        prog.append(op)
+        _sym_apply(fmt, regs, op)
+    # finish by observing the state the program built
+    if prog and prog[-1][0] not in ('tolist', 'write', 'get') and rng.random() < 0.85:
+        r = prog[-1][1]
+        prog.append(['tolist', r] if rng.random() < 0.5 else ['write', r])
+    return prog
+
+
+def _chunk_choice(rng, case):
+    sizes = [len(_record_bytes(case, r)) for r in case['recs']]
+    tot = sum(sizes)
+    return rng.choice([1, sizes[0], sizes[0] + 1, max(1, tot // 2), tot - 1, tot, tot + 1])
+
+
+MENU = [['get', 0, 1], ['get', 1, 0], ['slice', 0, None, None, -1], ['take', 0, [2, 0]], ['mask', 1, None], ['at', 0, 1],
+        ['cat', 0, [0, 1]], ['cat', 0, [1, 0]], ['rep', 0, 1, None], ['rep', 1, 1, None], ['tolist', 0], ['write', 0], ['len', 0]]
+
+
+def _menu_prog(rng, fmt, n0, idxs):
+    """A program from the fixed menu, with lengths filled in by the bookkeeping."""
+    regs = [_Sym(n0), _Sym(n0)]
+    prog = []
+    diverged = False
+    for i in idxs:
+        op = [x for x in MENU[i]]
+        r = op[1]
+        if diverged and op[0] in ('rep', 'mask', 'take'):
+            continue          # after a lazy-only failure the two runs hold tables of different length
+        if op[0] == 'cat' and not _cat_clean(fmt, [regs[j] for j in op[2]]):
+            diverged = True
+        if op[0] == 'mask':
+            op[2] = [(j % 2 == 0) for j in range(regs[r].n)]
+        if op[0] == 'rep':
+            op[3] = [200 + j for j in range(regs[r].n)] if FORMATS[fmt]['fields'][1][1] in ('int', 'int1') else ['S%d' % j for j in range(regs[r].n)]
+        if op[0] == 'take':
+            op[2] = [j for j in op[2] if j < regs[r].n]
+        prog.append(op)
+        _sym_apply(fmt, regs, op)
+    if prog[-1][0] not in ('tolist', 'write', 'len', 'at', 'get'):
+        prog.append(['tolist', prog[-1][1]])
+        prog.append(['write', prog[-1][1]])
+    return prog
+
+
+def generate(tier, seed):
+    import itertools
+    rng = random.Random(seed * 1000003 + 5)
+    cases = []
+    # (a) every program of length <= L over the fixed menu on a 3-record canonical file
+    maxlen = 2 if tier == 'quick' else 3
+    for fmt in (['bed6'] if tier == 'quick' else ['bed6', 'fastq', 'sam']):
+        base = _gen_file(random.Random(seed + 11), fmt, 3, True)
+        for L in range(1, maxlen + 1):
+            for idxs in itertools.product(range(len(MENU)), repeat=L):
+                if tier == 'thorough' and fmt != 'bed6' and L == 3 and rng.random() < 0.6:
+                    continue
+                c = dict(base)
+                c['chunk'] = None
+                c['prog'] = _menu_prog(rng, fmt, 3, idxs)
+                cases.append(c)
+    # (b) random files and programs, half of them in the clean profile (no known-finding trigger)
+    n_rand = 900 if tier == 'quick' else 9000
+    for i in range(n_rand):
+        fmt = FMT_ORDER[i % len(FMT_ORDER)]
+        clean = (i // len(FMT_ORDER)) % 2 == 0
+        nrec = rng.choice([1, 2, 2, 3, 3, 4, 5])
+        c = _gen_file(rng, fmt, nrec, clean)
+        chunked = rng.random() < 0.35
+        c['chunk'] = _chunk_choice(rng, c) if chunked else None
+        c['prog'] = _gen_prog(rng, fmt, nrec, rng.randint(1, 7), clean, chunked)
+        cases.append(c)
+    # (c) every field of every format replaced, then read back, written, indexed and written again
+    for k, fmt in enumerate(FMT_ORDER):
+        for hdr in (False, True):
+            base = _gen_file(random.Random(seed * 31 + k), fmt, 3, True)
+            if hdr:
+                base['header'] = {'bed3': '#track x\n', 'bed6': '#a\n', 'vcf': '##fileformat=VCFv4.2\n#CHROM\tPOS\tID\tREF\tALT\tQUAL\tFILTER\tINFO\n',
+                                  'sam': '@HD\tVN:1.0\n'}.get(fmt, '')
+                if not base['header']:
+                    continue
+            for f in range(len(FORMATS[fmt]['fields'])):
+                c = dict(base)
+                c['chunk'] = None
+                c['prog'] = [['rep', 0, f, _new_vals(rng, fmt, f, 3)], ['get', 0, f], ['write', 0], ['slice', 0, 1, None, None],
+                             ['write', 0], ['tolist', 0], ['get', 1, f], ['mask', 1, [True, False, True]], ['write', 1]]
+                cases.append(c)
+    cases.sort(key=lambda c: len(c['prog']) + len(c['recs']))
+    seen, out = set(), []
+    for c in cases:
+        h = json.dumps(c, sort_keys=True)
+        if h not in seen and c['prog']:
+            seen.add(h)
+            out.append(c)
+    return out
+
+
+def search(tier, seed, disagreeing):
+    out = []
+    for c in generate('quick', seed + 1):
+        if not disagreeing or c['fmt'] in {d['fmt'] for d in disagreeing}:
+            out.append(c)
+    return out[:600]
+
+
+# ----------------------------------------------------------------------------- Coq terms
+def _val(v):
+    if isinstance(v, bool):
+        raise ValueError(v)
+    if isinstance(v, int):
+        return '(VI %s)' % cz(v)
+    return '(VS %s)' % hx(bytes.fromhex(v))
+
+
+def _vals(vs):
+    return clist([_val(v) for v in vs], 'value')
+
+
+def _opt(x):
+    return '(@None Z)' if x is None else '(Some %s)' % cz(x)
+
+
+def _op(case, op):
+    k, r = op[0], op[1]
+    fields = FORMATS[case['fmt']]['fields']
+    if k == 'len':
+        return '(OLen %d)' % r
+    if k == 'get':
+        return '(OGet %d %d)' % (r, op[2])
+    if k == 'slice':
+        return '(OIndex %d (ISlice %s %s %s))' % (r, _opt(op[2]), _opt(op[3]), cz(1 if op[4] is None else op[4]))
+    if k == 'mask':
+        return '(OIndex %d (IMask %s))' % (r, clist([cbool(b) for b in op[2]], 'bool'))
+    if k == 'take':
+        return '(OIndex %d (ITake %s))' % (r, zl(op[2]))
+    if k == 'at':
+        return '(OAt %d %s)' % (r, cz(op[2]))
+    if k == 'cat':
+        return '(OCat %d %s)' % (r, clist(['%d%%nat' % j for j in op[2]], 'nat'))
+    if k == 'rep':
+        kind = fields[op[2]][1]
+        vs = [int(v) if kind in ('int', 'int1') else v.encode('latin1').hex() for v in op[3]]
+        return '(ORep %d %d %s)' % (r, op[2], _vals(vs))
+    if k == 'tolist':
+        return '(OTolist %d)' % r
+    return '(OWrite %d)' % r
+
+
+def _obs(op, o):
+    if 'e' in o:
+        return 'XErr'
+    v = o['v']
+    k = op[0]
+    if k == 'len':
+        return '(XLen %s)' % cz(v)
+    if k == 'get':
+        return '(XCol %s)' % _vals(v)
+    if k == 'at':
+        return '(XRow %s)' % _vals(v)
+    if k == 'tolist':
+        return '(XRows %s)' % clist([_vals(r) for r in v], 'list value')
+    if k == 'write':
+        return '(XBytes %s)' % hx(bytes.fromhex(v))
+    return 'XOk'
+
+
+def to_coq(case, o):
+    fmt = case['fmt']
+    recs = clist(['{| r_fields := %s; r_raw := %s |}' % (clist([hx(x.encode('latin1')) for x in r], 'list Z'), hx(_record_bytes(case, r)))
+                  for r in case['recs']], 'rawrec')
+    ok = 'steps' in o['lazy'] and 'steps' in o['eager']
+    L = o['lazy'].get('steps', [])
+    E = o['eager'].get('steps', [])
+    prog = case['prog']
+    chl = o['lazy'].get('chunk_lens', []) if ok else []
+    che = o['eager'].get('chunk_lens', []) if ok else []
+    return ('{| k_fmt := %s; k_header := %s; k_recs := %s; k_file := %s; k_chunked := %s; k_chunks := %s; k_chunks_eager := %s; '
+            'k_prog := %s; k_lazy := %s; k_eager := %s |}' % (
+                cz(FMT_ORDER.index(fmt)), hx(case.get('header', '').encode('latin1')), recs, hx(_file_bytes(case)),
+                cbool(case.get('chunk') is not None),
+                clist([zl(x) for x in chl], 'list Z'), clist([zl(x) for x in che], 'list Z'),
+                clist([_op(case, p) for p in prog], 'op'),
+                clist([_obs(p, x) for p, x in zip(prog, L)], 'obs'), clist([_obs(p, x) for p, x in zip(prog, E)], 'obs')))
+
+
+# ----------------------------------------------------------------------------- evidence helpers and findings
+def nontrivial(case, o):
+    seen = False
+    for op in case['prog']:
+        if op[0] in ('get', 'rep', 'tolist'):
+            seen = True
+        elif seen and op[0] in ('slice', 'mask', 'take', 'cat', 'write', 'at'):
+            return True
+    return False
+
+
+def describe(case, o):
+    return dict(fmt=case['fmt'], recs=case['recs'], header=case.get('header'), chunk=case.get('chunk'), prog=case['prog'],
+                lazy=[('ERR ' + x['e']) if 'e' in x else (x['v'] if not isinstance(x['v'], str) or len(x['v']) < 60 else x['v'][:60] + '..')
+                      for x in o['lazy'].get('steps', [])][:8])
+
+
+def distribution(cases, obs):
+    d = dict(formats={}, ops={}, prog_len={}, chunked=0, with_header=0, canonical_files=0, lazy_errors={}, eager_errors={})
+    for c, o in zip(cases, obs):
+        d['formats'][c['fmt']] = d['formats'].get(c['fmt'], 0) + 1
+        d['prog_len'][str(len(c['prog']))] = d['prog_len'].get(str(len(c['prog'])), 0) + 1
+        d['chunked'] += c.get('chunk') is not None
+        d['with_header'] += bool(c.get('header'))
+        d['canonical_files'] += _canonical(c)
+        for op in c['prog']:
+            d['ops'][op[0]] = d['ops'].get(op[0], 0) + 1
+        for side, key in (('lazy', 'lazy_errors'), ('eager', 'eager_errors')):
+            for x in (o or {}).get(side, {}).get('steps', []):
+                if 'e' in x:
+                    d[key][x['e']] = d[key].get(x['e'], 0) + 1
+    return d
+
+
+def _canonical(case):
+    if case.get('extra_cols') or case.get('crlf'):
+        return False
+    for rec in case['recs']:
+        for (name, kind), t in zip(FORMATS[case['fmt']]['fields'], rec):
+            if kind in ('int', 'int1') and str(int(t)) != t:
+                return False
+        if case['fmt'] == 'sam' and rec[11] == '':
+            return False
+    return True
+
+
+def _strip_header(b, fmt):
+    lines = b.split(b'\n')
+    c = b'@' if fmt == 'sam' else b'#'
+    while lines and lines[0][:1] == c and fmt not in ('fastq',):
+        lines = lines[1:]
+    return b'\n'.join(lines)
+
+
+def _explain_steps(case, o):
+    """[(step, finding id or None)] for every step where the lazy and the eager run differ."""
+    fmt = case['fmt']
+    fields = FORMATS[fmt]['fields']
+    nf = len(fields)
+    ragged = any(k == 'str' for _, k in fields)
+    if 'steps' not in o.get('lazy', {}) or 'steps' not in o.get('eager', {}):
+        return [(-1, None)]
+    L, E = o['lazy']['steps'], o['eager']['steps']
+    canon = _canonical(case)
+    regs = [_Sym(len(case['recs'])), _Sym(len(case['recs']))]
+    if case.get('chunk') is not None and fmt in ('fastq', 'fasta2'):
+        regs[0].kind = regs[1].kind = 'eager'
+    taint = [None, None]
+    out = []
+    for i, op in enumerate(case['prog']):
+        k, r = op[0], op[1]
+        a, b = L[i], E[i]
+        why = None
+        if k == 'cat':
+            src = [regs[j] for j in op[2]]
+            kinds = {s.kind for s in src}
+            tsrc = [taint[j] for j in op[2] if taint[j]]
+            if len(kinds) > 1:
+                why = 'C05-concat-lazy-with-materialised'
+            elif src[0].kind == 'lazy' and fmt in ('fastq', 'fasta2') and any(s.n == 0 for s in src):
+                why = 'C05-empty-lazy-table-sequence-id'
+            elif src[0].kind == 'lazy' and fmt not in ('fastq', 'fasta2'):
+                if any(not (src[0].setk <= s.setk and src[0].compk <= s.compk) for s in src):
+                    why = 'C05-concat-first-operand-keys'          # KeyError
+                elif any(not (s.setk <= src[0].setk) for s in src):
+                    taint[r] = 'C05-concat-first-operand-keys'     # silently dropped replaced column
+            if 'e' in a and 'e' not in b:
+                taint[r] = taint[r] or why or (tsrc[0] if tsrc else None)
+                if a != b:
+                    out.append((i, why or taint[r]))
+                continue           # the lazy register keeps its old content: bookkeeping unchanged
+            if tsrc and not taint[r]:
+                taint[r] = tsrc[0]
+        diff = (a != b)
+        if k == 'write' and 'v' in a and 'v' in b and not canon:
+            diff = False
+        if diff and k != 'cat':
+            if taint[r]:
+                why = taint[r]
+            elif k in ('get', 'tolist') and 'e' in a and 'v' in b and regs[r].n == 0 and regs[r].kind == 'lazy':
+                why = 'C05-empty-lazy-table-sequence-id'
+            elif k == 'at' and ragged and (('e' in a) != ('e' in b)):
+                why = 'C05-int-index-ragged-column'
+            elif k == 'write' and 'v' in a and 'e' in b and fmt == 'vcf' and case.get('header'):
+                why = 'C05-vcf-eager-write-with-header'
+            elif k == 'write' and 'e' in a and 'v' in b and fmt == 'fastq' and 2 in regs[r].setk and regs[r].kind == 'lazy':
+                why = 'C05-replaced-column-not-writable'
+            elif k == 'write' and 'e' in a and 'v' in b and fmt == 'vcf' and 7 in regs[r].setk:
+                why = 'C05-replaced-column-not-writable'
+            elif k == 'write' and 'v' in a and 'v' in b and (case.get('header') or fmt == 'vcf') and \
+                    _strip_header(bytes.fromhex(a['v']), fmt) == _strip_header(bytes.fromhex(b['v']), fmt):
+                why = 'C05-header-lost-on-derived-eager-table'
+            out.append((i, why))
+        elif diff:
+            out.append((i, why or taint[r]))
+        if 'e' not in a:
+            _sym_apply(fmt, regs, op)
+    return out
+
+
+def finding(case, o):
+    ex = _explain_steps(case, o)
+    if ex and all(w for _, w in ex):
+        return ex[0][1]
+    return None
+
+
+def signature(case, o):
+    ex = [(i, w) for i, w in _explain_steps(case, o) if not w]
+    if not ex or ex[0][0] < 0:
+        return 'load' if ex else 'anchor:' + case['fmt']
+    i = ex[0][0]
+    a, b = o['lazy']['steps'][i], o['eager']['steps'][i]
+    return '%s:%s:lazy=%s:eager=%s' % (case['fmt'], case['prog'][i][0], a.get('e', 'value'), b.get('e', 'value'))
+
+
+def explain(case, o):
+    ex = _explain_steps(case, o)
+    steps = []
+    for i, w in ex:
+        if i >= 0:
+            steps.append(dict(step=i, op=case['prog'][i][:3], lazy=o['lazy']['steps'][i], eager=o['eager']['steps'][i], explained_by=w))
+    return dict(file=_file_bytes(case).decode('latin1'), differing_steps=steps,
+                replay='bnp.open(path, lazy=True) vs lazy=False, then the steps of "prog" on two registers both holding the read table')
